@@ -17,12 +17,12 @@
     map is read back from the log at the end (`render`); a slot never written reads back as
     `("", null)` exactly like the zero `OrderedMapItem`;
   * `executor.Errors`, the harness's resolver event log and the writes share one append-only log;
-  * a `ResolvePromise` channel is named by the response path of the field invocation that made it
-    (`promise id res`, `id : Path`); what it will deliver is fixed by the world when the resolver
-    runs, so the node carries that result `res` and the store only records which channels
-    currently hold their message (`chan`) and which promises are still unfulfilled, in creation
-    order (`outstanding`); the value itself is described by the plan (`Comp`), so `res` is only
-    ok/err.
+  * a `ResolvePromise` channel is `promise id res`, `id` counting promises in creation order;
+    what it will deliver is fixed by the world when the resolver runs, so the node carries that
+    result `res` and the store only records which channels currently hold their message (`chan`)
+    and which promises are still unfulfilled, in creation order, with the response path of the
+    field invocation that made them (`outstanding`); the value itself is described by the plan
+    (`Comp`), so `res` is only ok/err.
 -/
 namespace ApiFu.C02
 
@@ -102,8 +102,8 @@ inductive Entry where
   deriving Repr, Inhabited
 
 structure Store where
-  chan : List Path := []               -- channels that hold their message (sent, not yet received)
-  outstanding : List Path := []        -- promises created and not yet fulfilled (creation order)
+  chan : List Nat := []                   -- channels that hold their message (sent, not yet received)
+  outstanding : List (Nat × Path) := []   -- promises created and not yet fulfilled (creation order)
   nextId : Nat := 0                    -- promises created so far
   log : List Entry := []
   rounds : Nat := 0                    -- idle-handler calls so far
@@ -126,7 +126,7 @@ inductive OkFn where
 
 inductive Fut where
   | ready (r : Res)
-  | promise (id : Path) (res : Res)                -- future.New(select on the channel); `res`: what it will receive
+  | promise (id : Nat) (res : Res)                 -- future.New(select on the channel); `res`: what it will receive
   | map (fn : MapFn) (f : Fut)
   | mapOk (fn : OkFn) (f : Fut)
   | mapOkToAny (f : Fut)
@@ -260,12 +260,12 @@ def execField (nn : Bool) (mode : Mode) (rerr : Option String) (c : Comp) (itemP
     | none => completed S0
   | .promise =>
     let res : Res := match rerr with | some msg => .err ⟨[], msg⟩ | none => .ok .null
-    (.thenK nn c itemPath (.promise itemPath res) none,
-     { S0 with nextId := S0.nextId + 1, outstanding := S0.outstanding ++ [itemPath] })
+    (.thenK nn c itemPath (.promise S0.nextId res) none,
+     { S0 with nextId := S0.nextId + 1, outstanding := S0.outstanding ++ [(S0.nextId, itemPath)] })
   | .pre =>
     let res : Res := match rerr with | some msg => .err ⟨[], msg⟩ | none => .ok .null
-    (.thenK nn c itemPath (.promise itemPath res) none,
-     { (S0.push (.fulfil itemPath)) with nextId := S0.nextId + 1, chan := S0.chan ++ [itemPath] })
+    (.thenK nn c itemPath (.promise S0.nextId res) none,
+     { (S0.push (.fulfil itemPath)) with nextId := S0.nextId + 1, chan := S0.chan ++ [S0.nextId] })
 
 mutual
   /-- `completeValue(fieldType, fields, result, path)`; `nn` says whether fieldType is NonNull. -/
@@ -510,11 +510,11 @@ def picks (mask : Option Nat) (n : Nat) : List Bool :=
       | k + 1 => true :: List.replicate k false
 
 /-- Deliver the picked promises (creation order): `ch <- result`, event `fulfil`. -/
-def deliver : List Path → List Bool → Store → Store
+def deliver : List (Nat × Path) → List Bool → Store → Store
   | [], _, S => S
   | p :: ps, [], S => deliver ps [] { S with outstanding := S.outstanding ++ [p] }
   | p :: ps, b :: bs, S =>
-    if b then deliver ps bs { (S.push (.fulfil p)) with chan := S.chan ++ [p] }
+    if b then deliver ps bs { (S.push (.fulfil p.2)) with chan := S.chan ++ [p.1] }
     else deliver ps bs { S with outstanding := S.outstanding ++ [p] }
 
 /-- One call of the harness's IdleHandler. -/
@@ -655,7 +655,7 @@ structure Outcome where
 
 def run (rq : Request) : Outcome :=
   match execute rq with
-  | (.done (.ok v), S) => ⟨render (Field.weightL rq.fields + 3) S.log v, errorsOf S.log, S.rounds, S.nextId, S.log, S.crash⟩
+  | (.done (.ok v), S) => ⟨render (Field.weightL rq.fields + 6) S.log v, errorsOf S.log, S.rounds, S.nextId, S.log, S.crash⟩
   | (.done (.err _), S) => ⟨"null", errorsOf S.log, S.rounds, S.nextId, S.log, S.crash⟩
   | (.stuck, S) => ⟨"STUCK", errorsOf S.log, S.rounds, S.nextId, S.log, S.crash⟩
   | (.outOfFuel, S) => ⟨"OUT-OF-FUEL", errorsOf S.log, S.rounds, S.nextId, S.log, S.crash⟩
